@@ -40,12 +40,15 @@ def tla_set(items):
     return "{" + ", ".join(tla(x) for x in items) + "}"
 
 
-def inst(name, kind, num="i"):
-    return {"name": name, "kind": kind, "num": num}
+def inst(name, kind, num="i", unit="", desc="", sn="c12", sv="", su=""):
+    """an instrument as requested from the Meter (sn, sv, su)"""
+    return {"name": name, "kind": kind, "num": num, "unit": unit, "desc": desc, "sn": sn, "sv": sv, "su": su}
 
 
-def view(mname="", mkind="", name="", agg="", keep=None):
-    return {"mname": mname, "mkind": mkind, "name": name, "agg": agg,
+def view(mname="", mkind="", name="", agg="", keep=None, munit="", mdesc="", msn="", msv="", msu="", unit="", desc=""):
+    """criteria m* ("" = not given; mname may carry the wildcards * and ?) and stream mask ("" = keep)"""
+    return {"mname": mname, "mkind": mkind, "munit": munit, "mdesc": mdesc, "msn": msn, "msv": msv, "msu": msu,
+            "name": name, "unit": unit, "desc": desc, "agg": agg,
             "filt": {"on": keep is not None, "keep": list(keep or [])}}
 
 
@@ -111,10 +114,110 @@ def family_views(tier):
     return out
 
 
+def _rot(idx):
+    """temporality / limit rotate over a family so every class meets both temporalities and a limit"""
+    return (0, 2, 2, 0)[idx % 4], ("delta", "cumulative")[idx % 2]
+
+
+def family_select(tier):
+    """(A) instrument selection by NewView criteria: Name exact / `*` / prefix wildcard / `?` wildcard, Unit,
+    Kind, Description, Scope name / version / schema URL, combined conjunctively; the selected instruments get
+    the view's action (attribute filter, drop, re-aggregation, rename), all others their default stream"""
+    th = tier == "thorough"
+    out = []
+
+    def add(insts, views):
+        L, t = _rot(len(out))
+        out.append(cfg(L, t, insts, views))
+
+    # three instruments differing in name / unit / kind
+    W1 = [inst("req", "counter", unit="ms"), inst("rex", "counter", unit="s"), inst("reqs", "histogram", unit="ms")]
+    patterns = ["req", "*", "re*", "re?"]          # exact, everything, prefix wildcard, exactly-one-character wildcard
+    if th:
+        patterns += ["", "req?", "r?q*", "*s", "?e*", "r*q", "???", "r*x"]
+    units = ["", "ms", "s"]                         # no unit criterion, the unit of req/reqs, the unit of rex
+    kinds = ["", "counter", "histogram"]
+    if th:
+        units.append("By")
+        kinds.append("gauge")
+    for pat in patterns:
+        for u in units:
+            for k in kinds:
+                if pat == "" and u == "" and k == "":
+                    continue
+                add(W1, [view(pat, mkind=k, munit=u, keep=["a"])])
+                add(W1, [view(pat, mkind=k, munit=u, agg="drop")])
+                add(W1, [view(pat, mkind=k, munit=u, agg="expo")])
+                if pat == "req":
+                    add(W1, [view(pat, mkind=k, munit=u, name="new", unit="u2")])
+    # several views with overlapping / disjoint selections
+    add(W1, [view("re*", munit="ms", keep=["a"]), view("re?", munit="s", agg="drop")])
+    add(W1, [view("*", mkind="counter", munit="ms", agg="drop"), view("req*", desc="d2", keep=["b"])])
+    add(W1, [view("r??", munit="s", keep=[]), view("r??", munit="ms", keep=["b"]), view("r???", agg="expo")])
+    add(W1, [view("?", agg="drop"), view("r*", mkind="histogram", munit="s", agg="drop"), view("re?s", munit="ms", keep=["a"])])
+    add(W1, [view("req", munit="s", agg="drop"), view("rex", munit="s", name="new")])
+    # the same instrument name in two instrumentation scopes (+ one more instrument in the first scope)
+    W2 = [inst("req", "counter", unit="ms", sn="sA", sv="v1"), inst("req", "counter", unit="ms", sn="sB", sv="v2", su="u2"),
+          inst("rq", "ocounter", sn="sA", sv="v1")]
+    scopes = [dict(msn="sA"), dict(msn="sB"), dict(msv="v2"), dict(msu="u2"), dict(msn="sA", msv="v2"), dict(msn="sA", msv="v1")]
+    for pat in ["", "req", "r*"]:
+        for sc in scopes:
+            add(W2, [view(pat, keep=["a"], **sc)])
+            add(W2, [view(pat, agg="drop", **sc)])
+    add(W2, [view("r?", msn="sB", agg="drop"), view("r*", msn="sA", munit="ms", name="", unit="s")])
+    # description criterion
+    W3 = [inst("req", "updown", desc="d1"), inst("rex", "updown", desc="d2")]
+    for v in [view("re?", mdesc="d1"), view("", mdesc="d2"), view("*", mdesc="d3"), view("rex", mdesc="d1")]:
+        add(W3, [dict(v, filt={"on": True, "keep": ["b"]})])
+        add(W3, [dict(v, agg="drop")])
+    return out
+
+
+def family_ident(tier):
+    """(B) stream identity: an instrument matched by several views yields one stream per DISTINCT identity
+    (name case-insensitive, description, unit, kind, number, scope); identical resulting streams share one
+    aggregator and count every measurement once, distinct ones each receive every measurement once"""
+    th = tier == "thorough"
+    out = []
+    R = inst("Req", "counter", unit="ms")
+    core = [
+        ([R], [view("*"), view("Req", name="Req")]),                          # renamed to the same name
+        ([R], [view("*"), view("Req", name="req")]),                          # ... to a case variant
+        ([R], [view("Req", name="rEQ"), view("R??"), view("*", munit="ms")]),  # three ways to one identity
+        ([R], [view("*"), view("Req", name="other")]),                        # different name: two complete streams
+        ([R], [view("*", keep=["a"]), view("Req", name="REQ", keep=["a"])]),  # shared, filtered
+        ([R], [view("Req", unit="s"), view("R*")]),                           # same name, other unit: both exported
+    ]
+    for ins, vs in core:
+        for t in ("delta", "cumulative"):
+            for L in ((0, 2) if th else ((2,) if t == "delta" else (0,))):
+                out.append(cfg(L, t, ins, vs))
+    more = [
+        ([R], [view("Req", desc="d2"), view("Req")]),                         # same name, other description
+        ([R], [view("Req", name="X", agg="hist"), view("Req", name="x", agg="hist"), view("Re?", agg="drop")]),
+        ([R], [view("Req", name="x", keep=["b"]), view("R*", unit="s", keep=["b"]), view("*", name="", unit="s", keep=["b"])]),
+        ([inst("Req", "counter"), inst("req", "counter")], []),              # case-variant instruments: one stream
+        ([inst("Req", "counter", unit="ms"), inst("req", "counter", unit="s")], []),   # ... unless the unit differs
+        ([inst("Req", "updown", "i"), inst("req", "updown", "f")], []),      # ... or the number type
+        ([inst("req", "counter", sn="sA"), inst("REQ", "counter", sn="sB")], [view("*", name="")]),  # ... or the Meter
+        ([inst("i1", "counter"), inst("i2", "counter")], [view("i1", name="Out"), view("i2", name="oUT")]),
+        ([inst("Lat", "histogram")], [view("L*", agg="expo"), view("Lat", name="lat", agg="expo")]),
+        ([inst("Obs", "ocounter")], [view("*"), view("Obs", name="obs")]),
+        ([inst("Obs", "oupdown"), inst("OBS", "oupdown")], [view("*", keep=["a"]), view("", mkind="oupdown", keep=["a"])]),
+        ([inst("G", "gauge", "f")], [view("G"), view("?"), view("zz", agg="drop")]),
+        ([inst("G", "ogauge")], [view("G", name="g2"), view("*", mkind="ogauge"), view("G", name="G2")]),
+    ]
+    for j, (ins, vs) in enumerate(more):
+        for t in (("delta", "cumulative") if th else (("delta", "cumulative")[j % 2],)):
+            out.append(cfg((2, 0, 3)[j % 3], t, ins, vs))
+    return out
+
+
 SETS_LIMIT_QUICK = [{"a": 1, "b": 0}, {"a": 2, "b": 0}, {"a": 0, "b": 1}]
 SETS_LIMIT_THOROUGH = SETS_LIMIT_QUICK + [{"a": 0, "b": 0}]
 SETS_VIEWS = [{"a": 1, "b": 1}, {"a": 1, "b": 2}, {"a": 2, "b": 1}]
 SETS_VIEWS_THOROUGH = SETS_VIEWS + [{"a": 0, "b": 0}]
+SETS_SELECT = [{"a": 1, "b": 1}, {"a": 1, "b": 2}]
 
 
 def families(tier):
@@ -124,6 +227,10 @@ def families(tier):
              steps=5 if th else 4, hsteps=5 if th else 4),
         dict(name="views", configs=family_views(tier), sets=SETS_VIEWS_THOROUGH if th else SETS_VIEWS,
              steps=4, hsteps=4),
+        dict(name="select", configs=family_select(tier), sets=SETS_VIEWS if th else SETS_SELECT,
+             steps=2, hsteps=3 if th else 2),
+        dict(name="ident", configs=family_ident(tier), sets=SETS_VIEWS,
+             steps=4 if th else 3, hsteps=4 if th else 3),
     ]
 
 
@@ -197,7 +304,10 @@ def run(ctx):
     keys = ["a", "b"]
     first = True
     edges_total = 0
+    only = [x for x in os.environ.get("C12_FAMILIES", "").split(",") if x]  # debugging aid: restrict the families
     for fam in families(ctx.tier):
+        if only and fam["name"] not in only:
+            continue
         d = {"KEYS": tla_set(keys), "CONFIGS": tla(fam["configs"]), "SETS": tla_set(fam["sets"])}
         # ---- the statement on the model, every history (no edges, all workers)
         dh = dict(d, MAXSTEPS=fam["hsteps"])
